@@ -180,6 +180,60 @@ def display_order(rep, prog):
                          "prints %s, expected %s%s" % (got, exp, " (for some identifier text)" if cx.decisions else ""))
     rep.analysed_item("<Version as Display>::fmt interpreted on 10 identifier-list shapes (numeric and alphanumeric identifiers, "
                       "including lists whose identifiers are equal)")
+    if any(x["what"].startswith(rule + ":") for x in rep.inconclusive):
+        display_witness(rep, prog)
+
+
+def display_witness(rep, prog):
+    """Display does arithmetic on the numbers it prints (casts, digit extraction): the template abstraction does not apply.
+    Witness search on concrete values, including values beyond 32 bits and multi-digit ones; a printed text that differs
+    from the canonical one is a genuine violation, none found leaves T-DISPLAY-V inconclusive."""
+    from ..interp import StrV
+    rule = "T-DISPLAY-V-WITNESS"
+    rep.rule(rule, 0, "witness search for Display for Version on concrete component and identifier values")
+    key = "<Version as std::fmt::Display>::fmt"
+    names = prog.field_names("Version")
+    NUM = prog.variant_index("Identifier", "Numeric")
+    ALPHA = prog.variant_index("Identifier", "AlphaNumeric")
+    vals = [0, 7, 10, 123, (1 << 32), (1 << 32) + 5, (1 << 40) + 9, 900719925474099]
+    big = [0, 9, 10, (1 << 32) + 5, 10 ** 16, (1 << 64) - 1]
+    cases = []
+    for v in vals:
+        cases.append(((v, 1, 2), (), ()))
+        cases.append(((1, v, 2), (), ()))
+        cases.append(((1, 2, v), (), ()))
+    for v in big:
+        cases.append(((1, 2, 3), (v,), ()))
+        cases.append(((1, 2, 3), ("x", v), (v, "y")))
+    n = bad = 0
+    for nums, pre, build in cases:
+        def idt(x):
+            return Adt("Identifier", NUM, (x,)) if isinstance(x, int) else Adt("Identifier", ALPHA, (StrV(x),))
+        f = dict(zip(("major", "minor", "patch"), nums))
+        f["pre_release"] = ListV([idt(x) for x in pre])
+        f["build"] = ListV([idt(x) for x in build])
+        v = Adt("Version", 0, [f[nm] for nm in names])
+        fm = Formatter()
+        pol = Policy()
+        pol.witness = True
+        it = Interp(prog, pol)
+        try:
+            it.call_body(key, [Ptr(Cell(v)), Ptr(Cell(fm))])
+        except (Inconclusive, Panic):
+            continue
+        if not all(p[0] == "lit" for p in fm.out):
+            continue
+        n += 1
+        got = "".join(p[1] for p in fm.out)
+        exp = "%d.%d.%d" % nums + ("-" + ".".join(str(x) for x in pre) if pre else "") + ("+" + ".".join(str(x) for x in build) if build else "")
+        if got == exp:
+            rep.ok(rule)
+        else:
+            bad += 1
+            if bad <= 3:
+                where = "component" if not pre and not build else "identifier"
+                rep.fail(rule, "%s|%s|%s" % (key, rule, where), "prints %r for the version %s" % (got, exp), example=exp)
+    rep.analysed_item("witness search for Display for Version: %d concrete versions, %d printed wrongly" % (n, bad))
 
 
 def parser_wiring(rep, prog, rule):
